@@ -268,6 +268,26 @@ func (o *OracleC11) maybeProbe() {
 		kind = "transaction_not_requested"
 		id := 1_000_000 + tape.Draw(SProbe, 8)
 		txp = NewTx(id, false)
+		if tape.Chance(SProbe, 1, 2) && d.RequestSentOrReceived() {
+			// a transaction of the current proposal that the node already holds was not
+			// requested either (only the missing ones are)
+			var heldTx []*Tx
+			for _, hh := range d.TransactionHashes {
+				missing := false
+				for _, mh := range d.MissingTransactions {
+					if mh == hh {
+						missing = true
+					}
+				}
+				if t, ok := d.Transactions[hh].(*Tx); ok && t != nil && !missing {
+					heldTx = append(heldTx, t)
+				}
+			}
+			if len(heldTx) > 0 {
+				kind = "transaction_of_the_proposal_already_held"
+				txp = heldTx[tape.Draw(SProbe, uint64(len(heldTx)))]
+			}
+		}
 		for _, m := range d.MissingTransactions {
 			if m == txp.Hash() {
 				return
